@@ -14,7 +14,10 @@ META = {
 }
 THEOREMS = ['Scalibr.Walk.C01_calls', 'Scalibr.Walk.C01_once', 'Scalibr.Walk.C01_only_required', 'Scalibr.Walk.C01_limit_shared',
             'Scalibr.Walk.C01_inv', 'Scalibr.Walk.C01_inv_spec', 'Scalibr.Walk.C01_subdir', 'Scalibr.Walk.C01_subdir_spec', 'Scalibr.Walk.C01_matcher_domainLaw', 'Scalibr.Walk.C01_table_matcher_domainLaw',
-            'Scalibr.Walk.run_spec', 'Scalibr.Walk.walkNode_spec', 'Scalibr.Walk.mustFlat_nodup', 'Scalibr.Walk.runRoots_pkgs']
+            'Scalibr.Walk.run_spec', 'Scalibr.Walk.walkNode_spec', 'Scalibr.Walk.mustFlat_nodup', 'Scalibr.Walk.runRoots_pkgs',
+            'Scalibr.Walk.C01_once_run', 'Scalibr.Walk.C01_allFiles_exact', 'Scalibr.Walk.C01_allFiles_complete', 'Scalibr.Walk.C01_only_required_run',
+            'Scalibr.Walk.C01_calls_are_files', 'Scalibr.Walk.C01_limit_shared_run', 'Scalibr.Walk.C01_limit_shared_step',
+            'Scalibr.Walk.C01_requested_file_bypasses_skip_rules', 'Scalibr.Walk.C01_requested_file_bypasses_skip_rules_run']
 
 
 def run(ctx):
